@@ -12,20 +12,24 @@ import (
 )
 
 // c18Comment: a comment inside an enum rule with a symbolic body.
-func c18Comment(kind int) []byte {
-	n := v.Choose(0, 1)
+func c18Comment(kind, max int) []byte {
+	n := v.Choose(0, max)
 	body := []byte{}
 	for i := 0; i < n; i++ {
 		c := v.Byte()
-		if kind == 1 {
-			v.Assume(c != '\n' && c != '\r')
-		} else {
-			v.Assume(c != '*' && c != '\n' && c != '\r')
+		v.Assume(c != '\n' && c != '\r')
+		if kind != 1 && i > 0 {
+			// a block comment ends at the first "*/": its body may hold stars and slashes, not that pair
+			v.Assume(!(body[i-1] == '*' && c == '/'))
 		}
 		body = append(body, c)
 	}
 	if kind == 1 {
 		return cat(bs(" //"), body, bs("\n"))
+	}
+	if n > 0 {
+		// "/*/" would not be a complete comment: keep a blank after the opening when the body starts with '/'
+		return cat(bs(" /* "), body, bs("*/"))
 	}
 	return cat(bs(" /*"), body, bs("*/"))
 }
@@ -74,10 +78,15 @@ func ZZC18Enum() {
 		rule = append(rule, l...)
 		inline = append(inline, l...)
 		if layout == 2 && i == n-1 {
-			rule = cat(rule, c18Comment(1))
+			rule = cat(rule, c18Comment(1, 1))
 		}
 		if layout == 3 {
-			rule = cat(rule, c18Comment(2))
+			// the first block comment has a body of up to commentlen bytes (stars and slashes included), the others are empty or one byte
+			if i == 0 {
+				rule = cat(rule, c18Comment(2, v.Param("commentlen", 1)))
+			} else {
+				rule = cat(rule, c18Comment(2, 1))
+			}
 		}
 	}
 	if layout == 1 {
